@@ -3280,6 +3280,10 @@ yin_parse_element_generic(struct lysp_yin_ctx *ctx, enum ly_stmt parent_stmt, st
         /* element is known yang keyword, which means argument can be parsed correctly. */
         ret = yin_parse_extension_instance_arg(ctx, (*element)->kw, &(*element)->arg);
         LY_CHECK_GOTO(ret, cleanup);
+        if ((*element)->arg) {
+            /* YIN has no quoting, the argument may need it (blanks, special characters, empty string) when printed as YANG */
+            (*element)->flags |= LYS_DOUBLEQUOTED;
+        }
     } else {
         LY_CHECK_GOTO(ret = lyxml_ctx_next(ctx->xmlctx), cleanup);
 
